@@ -627,6 +627,30 @@ def _event_is_set(self):
     return self._flag
 
 
+SELECT_QUANTUM = 0.001
+
+
+def _make_select(orig):
+    def select(self, timeout=None):
+        s = _SCHED
+        me = s.me() if s is not None else None
+        if me is None or s.finished:
+            return orig(self, timeout)
+        s.yield_point(me, 'select', None)
+        deadline = None if timeout is None else s.now + max(0.0, timeout)
+        while True:
+            ev = orig(self, 0)
+            if ev or (deadline is not None and s.now >= deadline):
+                return ev
+            d = s.now + SELECT_QUANTUM
+            if deadline is not None and deadline < d:
+                d = deadline
+            # nothing ready: let the other threads run; poll again when virtual time moves (or the strategy says so)
+            s.block(me, None, d, 'select')
+
+    return select
+
+
 def install():
     """Patch the stdlib.  Must run before `concurrent.futures`, `logging`, `queue` users and mpservice are imported."""
     global _INSTALLED
@@ -648,6 +672,11 @@ def install():
     threading._time = _v_monotonic
     queue.SimpleQueue = queue._PySimpleQueue
     queue.time = _v_monotonic
+    import selectors
+    for nm in ('SelectSelector', 'PollSelector', 'EpollSelector'):
+        cls = getattr(selectors, nm, None)
+        if cls is not None:
+            cls.select = _make_select(cls.select)
     _time.sleep = _v_sleep
     _time.monotonic = _v_monotonic
     _time.perf_counter = _v_perf_counter
